@@ -3,7 +3,7 @@ ID = "C10"
 PROP = {
     "level": "exploration",
     "rule": ("rapid-generated cases = queue configuration (window quota 1-3, window 1-3 s, queue size 1-4, first instant at offset 0 / W/2 / W-1ns / W-2ns / random "
-             "inside its window) + a schedule of <=28 controller actions {arrive(priority 0-2, ttl 1-3 windows, stay-in-gap or proceed at once), proceed(one of the "
+             "inside its window) + a schedule of 1-30 controller actions {arrive(priority 0-2, ttl 1-3 windows, stay-in-gap or proceed at once), proceed(one of the "
              "enqueuers held in the hand-off gap), fire(one of the timers due first: the window processor's = roll-over, or a waiter's time-to-live), advance(1 ns, "
              "W/4, W/2, to 1 ns before the next timer, exactly to the window boundary with the processor not yet run)}, followed by a checked drain (everybody "
              "proceeds, timers fire in order until nobody waits). Run against the real DelayedPriorityQueue (TestQueueSchedules) and through "
@@ -23,8 +23,8 @@ PROP = {
         "in-memory queue only (the Redis-backed queue of the pro build is absent); one queue (one remedy name + strategy) per case; ttl_seconds are whole seconds",
     ],
     "units": [
-        {"pkg": "c10", "test": "TestQueueSchedules", "quick": 4000, "thorough": 30000, "shards": 16},
-        {"pkg": "c10", "test": "TestPluginSchedules", "quick": 1500, "thorough": 8000, "shards": 16},
+        {"pkg": "c10", "test": "TestQueueSchedules", "quick": 10000, "thorough": 30000, "shards": 16},
+        {"pkg": "c10", "test": "TestPluginSchedules", "quick": 3000, "thorough": 8000, "shards": 16},
         {"pkg": "c10", "test": "TestWitnessLostHandoff", "kind": "plain"},
     ],
     "technique": ("stateful property-based testing (rapid) of generated schedules over the real queue / plugin on a virtual clock that steers the interleaving at the "
